@@ -3,5 +3,4 @@
 namespace djsim
 {
 bool World::exec_foreign_op(const Step&) { return false; }
-bool World::exec_hostile_op(const Step&) { return false; }
 }  // namespace djsim
